@@ -16,6 +16,7 @@ VALUES = [
     {}, [], "", "x", 0, -1, 2 ** 63, -(2 ** 63) - 1, 1.5, 0.1 + 0.2, 1e308, True, False, None,
     {"a": [1, {"b": None}], "": 1, "k.with.dots": {"é": "漢😀"}}, "é漢😀", "quote\" back\\slash 'single'", "ctl\n\t\x01\x7f",
     BIG, [[[[[[[[[[1]]]]]]]]]], {"list": [1, "a", None, True, 1.5, {"x": []}]}, "  ", "null", "0", " ", [None], {"a": {}},
+    {"_private": 1, "__dunder__": [2], "n": {"_nested": {"_deeper": None}, "l": [{"_in_list": True}]}, "_": ""},
 ]
 
 
@@ -197,12 +198,20 @@ def store_job(job):
         if [s.id for s in back.stages] != [s.id for s in wf.stages]:
             viols.append({"kind": "stage-order-changed", "sig": "stage-order"})
         # read-modify-write: change ONE thing, everything else must stay
-        for change in ("context", "status", "task"):
+        for ri, change in enumerate(("context", "outputs", "status", "task", "outputs+context", "outputs")):
             cur = w.store.retrieve_stage(st.id)
             before = snapshot(cur)
-            if change == "context":
-                cur.context["added"] = {"n": ci}
-                before.context["added"] = {"n": ci}
+            phase = cur.status.name  # the status the row has now: what a CAS save expects
+            if "context" in change:
+                cur.context["added"] = {"n": ci, "_r": ri}
+                before.context["added"] = {"n": ci, "_r": ri}
+            if "outputs" in change:
+                cur.outputs["produced"] = {"n": [ci, ri], "_u": None}
+                before.outputs["produced"] = {"n": [ci, ri], "_u": None}
+                cur.outputs.pop("o", None)
+                before.outputs.pop("o", None)
+            if change in ("context", "outputs", "outputs+context"):
+                pass
             elif change == "status":
                 from stabilize.models.status import WorkflowStatus
 
@@ -214,11 +223,17 @@ def store_job(job):
                 cur.tasks[-1].status = WorkflowStatus.SUCCEEDED
                 before.tasks[-1].status = WorkflowStatus.SUCCEEDED
             try:
-                if ci % 2:
+                how = (ci + ri) % 4
+                if how == 0:
                     w.store.store_stage(cur)
-                else:
+                elif how == 1:
                     with w.store.transaction() as txn:
                         txn.store_stage(cur)
+                elif how == 2:
+                    with w.store.transaction() as txn:
+                        txn.store_stage(cur, expected_phase=phase)
+                else:
+                    w.store.store_stage(cur, expected_phase=phase)
             except Exception as e:  # noqa: BLE001
                 viols.append({"kind": "store_stage-raised", "case": what, "error": repr(e)[:120], "sig": "store_stage-raised:" + type(e).__name__})
                 continue
@@ -394,7 +409,7 @@ def aggregate(results, tier, seed, pre):
             "rule": "stage records: every enum member of status/join/split/synthetic owner, every optional field over {None,'',value,unicode}, 0-3 tasks, "
                     "27 JSON values (empty, nested, unicode incl. astral, quotes, control chars, 2^63, floats, 64 KB string, deep nesting) in context/outputs; one field "
                     "varied at a time (thorough: pairs); each stored through store(), read through retrieve() and retrieve_stage(), then three read-modify-write "
-                    "rounds through store_stage (plain and transactional). messages: every message class x every field over its domain through queue.push AND "
+                    "six read-modify-write rounds (context / outputs / status / task changed) through the four save paths: store.store_stage and AtomicTransaction.store_stage, each with and without expected_phase. messages: every message class x every field over its domain through queue.push AND "
                     "AtomicTransaction.push_message, polled back; distinct_nontrivial counts distinct records/instances",
             "samples": [s for r in good for s in r.get("samples", [])][:4] or [{"note": "none"}],
             "exhaustive": True,
